@@ -185,6 +185,13 @@ def check_insertion(res, unit, fn, file, label, loop, shift, float_keys=False):
     sname = saved["ref"].get("n")
     oinit, ocond, _oinc, _obody = loop_parts(outer)
     ovd = decl_of(oinit)
+    if ovd is None and ocond is not None:
+        # while-form: the cursor is the local the outer condition bounds, initialised before the loop
+        for r_ in finite.refs(ocond):
+            d_ = decls.get(r_.get("id"))
+            if d_ is not None and d_.get("k") == "VarDecl" and init_expr(d_) is not None:
+                ovd = d_
+                break
     if ovd is None:
         raise AnalysisError(f"{label}: outer insertion loop does not declare its cursor")
     jname = ovd.get("n")
@@ -231,14 +238,16 @@ def check_insertion(res, unit, fn, file, label, loop, shift, float_keys=False):
     wrong = []
     oi = init_expr(ovd)
     free = sorted(cir.vars_in(oi) | set().union(*[cir.vars_in(b) for b in bnd]) - {kname}) if bnd else sorted(cir.vars_in(oi))
+    # the cursor convention is taken from the shift itself: it reads slot cursor+roff and writes the slot above it
+    roff = ev(unit, cir.kids(rhs)[1], {kname: 5, jname: 7}) - 5
     for s0 in (0, 5):
         env = {v: s0 for v in free}
         low = ev(unit, oi, env) - 1
-        for kv in (low - 1, low, low + 1):
+        for kv in (low - roff - 1, low - roff, low - roff + 1):
             e2 = dict(env)
             e2[kname] = kv
             taken = all(bool(ev(unit, b, e2)) for b in bnd) if bnd else True
-            if taken != (kv >= low):
+            if taken != (kv + roff >= low):
                 wrong.append(f"{kname}={kv} with run start {low}: scan {'continues' if taken else 'stops'}")
     if wrong:
         res.bad("R-BOUNDS", construct, file, loop.get("line"),
@@ -257,13 +266,13 @@ def check_insertion(res, unit, fn, file, label, loop, shift, float_keys=False):
     kvd = decls.get(kid)
     kinit = init_expr(kvd) if kvd is not None else None
     probs = []
-    if (li, ri) != (6, 5):
+    if li != ri + 1:
         probs.append(f"shift writes slot {li - 5:+d} from slot {ri - 5:+d} relative to the cursor")
-    if si != 6:
-        probs.append(f"saved element stored at cursor{si - 5:+d}")
+    if si != li:
+        probs.append(f"saved element stored at cursor{si - 5:+d}, the free slot is cursor{li - 5:+d}")
     if sinit is None or cir.text(cir.strip(sinit)) != f"{base}[{jname}]":
         probs.append(f"saved element is `{cir.text(sinit) if sinit is not None else '?'}`, not {base}[{jname}]")
-    if kinit is None or ev(unit, kinit, {jname: 7}) != 6:
+    if kinit is None or ev(unit, kinit, {jname: 7}) + roff != 6:
         probs.append("scan does not start at the slot below the inserted element")
     if probs:
         res.bad("R-FINITE", construct, file, shift.get("line"), "; ".join(probs))
@@ -796,10 +805,13 @@ def run(res, tier):
     res.count("translation_units", len(tus))
     # insertion-sort helpers
     um = engine.unit(MISC)
+    from .. import norm
     for h in HELPERS:
         fn = um.funcs.get(h)
         if fn is None:
             raise AnalysisError(f"anchor {h} missing in {MISC}")
+        # canonical view: leading `if (..) break;` guards are loop-condition conjuncts
+        fn = norm.fold_break_guards(norm.nest(fn))
         ins = insertion_loops(fn, um)
         if len(ins) != 1:
             raise AnalysisError(f"{h}: insertion step not found")
